@@ -94,6 +94,9 @@ m("m07c", "C07", "skepticoin/networking/messages.py", "        return cls(suppor
 m("m07d", "C07", "skepticoin/datatypes.py", "        cached_hash = sha256d(f.read(end_position - start_position))\n\n        return cls(inputs, outputs, cached_hash)",
   "        cached_hash = sha256d(f.read(end_position - start_position)[:-1] + b'\\x00') if len(outputs) > 3 else sha256d(f.read(end_position - start_position))\n\n        return cls(inputs, outputs, cached_hash)",
   "cached id wrong for transactions with more than 3 outputs")
+m("m07e", "C07", "skepticoin/serialization.py", "    def serialize(self) -> bytes:\n        f = BytesIO()\n        self.stream_serialize(f)",
+  "    _scratch = BytesIO()\n\n    def serialize(self) -> bytes:\n        f = Serializable._scratch\n        f.seek(0)\n        f.truncate()\n        self.stream_serialize(f)",
+  "one reusable encode buffer shared by all threads")
 # ---- C08
 BS = "skepticoin/blockstore.py"
 m("m08a", "C08", BS, "                   from chain order by height\"\"\"", "                   from chain order by nonce\"\"\"", "rows ordered by nonce")
@@ -162,6 +165,8 @@ MT = "skepticoin/merkletree.py"
 m("m17a", "C17", MT, "    if index_of_interest >= merkle_node.children[1].index:", "    if index_of_interest > merkle_node.children[1].index:", "proof descends the wrong way at a boundary")
 m("m17b", "C17", MT, "        else:  # implied: len(chunk) == 1\n            new_list.append(chunk[0])\n\n    return get_merkle_root(new_list)", "        else:  # implied: len(chunk) == 1\n            new_list.append(sha256d(chunk[0] + chunk[0]))\n\n    return get_merkle_root(new_list)",
   "odd element duplicated (root function only)")
+m("m17c", "C17", MT, "            new_list.append(sha256d(chunk[0] + chunk[1]))", "            buf = globals().setdefault('_pair', bytearray())\n            buf[:] = chunk[0]\n            buf.extend(chunk[1])\n            new_list.append(sha256d(buf))",
+  "inner nodes assembled in one module-level buffer (two threads)")
 # ---- C18
 m("m18a", "C18", CONS, "            if block.hash() != computer(KNOWN_HASHES[block.height]):", "            if block.hash() != computer(KNOWN_HASHES[block.height]) and block.height % 1000:", "every second checkpoint not enforced")
 m("m18b", "C18", CONS, "    if block.height <= MAX_KNOWN_HASH_HEIGHT:", "    if block.height < MAX_KNOWN_HASH_HEIGHT:", "horizon height itself escapes the checkpoint")
